@@ -263,4 +263,95 @@ theorem runFromG_decideT (tr : Nat → List (Trans τ)) (s : St τ) (nows : List
 
 end generalMachine
 
+/-! ## framer periods -/
+
+theorem dvd_of_between (k i m : Nat) (h1 : i ≤ m * k) (h2 : m * k < i + k) : (k ∣ i) ↔ (m * k = i) := by
+  constructor
+  · rintro ⟨q, rfl⟩
+    have a : q ≤ m := by
+      by_cases h : q ≤ m
+      · exact h
+      · have : m + 1 ≤ q := by omega
+        have := Nat.mul_le_mul_left k this
+        rw [Nat.mul_comm k (m+1), Nat.mul_comm k q] at this
+        rw [Nat.mul_comm k q] at h1 h2
+        have e : (m + 1) * k = m * k + k := by rw [Nat.add_mul, Nat.one_mul]
+        omega
+    have b : m ≤ q := by
+      by_cases h : m ≤ q
+      · exact h
+      · have : q + 1 ≤ m := by omega
+        have := Nat.mul_le_mul_right k this
+        have e : (q + 1) * k = q * k + k := by rw [Nat.add_mul, Nat.one_mul]
+        rw [Nat.mul_comm k q] at h2
+        omega
+    have : q = m := by omega
+    rw [this, Nat.mul_comm]
+  · intro h; exact ⟨m, by rw [← h, Nat.mul_comm]⟩
+
+theorem runsAt_multiple (P : Int) (hP : 0 < P) (k : Nat) :
+    ∀ (n i m : Nat), i ≤ m * k → m * k < i + k →
+      runsAt P ((k : Int) * P) n ((i : Int) * P) (((m * k : Nat) : Int) * P)
+        = (List.range n).map (fun j => decide (k ∣ i + j)) := by
+  intro n
+  induction n with
+  | zero => intro i m _ _; rfl
+  | succ n ih =>
+    intro i m h1 h2
+    have hr : List.range (n + 1) = 0 :: (List.range n).map (· + 1) := List.range_succ_eq_map
+    rw [hr]
+    simp only [List.map_cons, List.map_map, Nat.add_zero]
+    have hstep : (i : Int) * P + P = ((i + 1 : Nat) : Int) * P := by
+      rw [Int.natCast_add, Int.add_mul]; simp
+    have hcmp : ((i : Int) * P < ((m * k : Nat) : Int) * P) ↔ (i < m * k) := by
+      constructor
+      · intro h
+        have := Int.lt_of_mul_lt_mul_right h (Int.le_of_lt hP)
+        exact Int.ofNat_lt.mp this
+      · intro h
+        exact Int.mul_lt_mul_of_pos_right (Int.ofNat_lt.mpr h) hP
+    have hdv := dvd_of_between k i m h1 h2
+    unfold runsAt
+    by_cases hlt : i < m * k
+    · have hnd : ¬ k ∣ i := by rw [hdv]; omega
+      simp only [hcmp.2 hlt, if_true, hnd, decide_false]
+      rw [hstep, ih (i + 1) m (by omega) (by omega)]
+      congr 1
+      apply List.map_congr_left
+      intro j _
+      simp only [Function.comp]
+      congr 2; omega
+    · have heq : m * k = i := by omega
+      have hd : k ∣ i := hdv.2 heq
+      have hn : ¬ ((i : Int) * P < ((m * k : Nat) : Int) * P) := fun h => hlt (hcmp.1 h)
+      simp only [hn, if_false, hd, decide_true]
+      have hre : ((m * k : Nat) : Int) * P + (k : Int) * P = (((m + 1) * k : Nat) : Int) * P := by
+        rw [Nat.add_mul, Nat.one_mul, Int.natCast_add, Int.add_mul]
+      rw [hstep, hre, ih (i + 1) (m + 1) (by rw [Nat.add_mul, Nat.one_mul]; omega) (by rw [Nat.add_mul, Nat.one_mul]; omega)]
+      congr 1
+      apply List.map_congr_left
+      intro j _
+      simp only [Function.comp]
+      congr 2; omega
+
+
+theorem zip_filterMap_flag {α β : Type} (l : List α) (f : α → β) (g : α → Bool) :
+    ((l.map f).zip (l.map g)).filterMap (fun sr => if sr.2 then some sr.1 else none) = (l.filter g).map f := by
+  induction l with
+  | nil => rfl
+  | cons a l ih =>
+    simp only [List.map_cons, List.zip_cons_cons, List.filterMap_cons, List.filter_cons]
+    cases g a <;> simp [ih]
+
+theorem runsAt_zero_period (P : Int) (hP : 0 ≤ P) : ∀ (n : Nat) (s : Int), 0 ≤ s →
+    runsAt P 0 n s 0 = List.replicate n true := by
+  intro n
+  induction n with
+  | zero => intro s _; rfl
+  | succ n ih =>
+    intro s hs
+    have : ¬ s < 0 := by omega
+    simp only [runsAt, this, if_false, Int.add_zero, List.replicate_succ]
+    rw [ih (s + P) (by omega)]
+
 end Ioflo.FloClock
